@@ -758,20 +758,33 @@ where
         // If we need to find the next cluster, walk the FAT.
         let mut space = buffer.len();
         let mut read = 0;
+        // The caller gets no byte count with an error, so a failed read must
+        // leave the file position where this call found it (a retry then
+        // reads the same bytes again instead of skipping some).
+        let start_offset = data.open_files[file_idx].current_offset;
         while space > 0 && !data.open_files[file_idx].eof() {
             let mut current_cluster = data.open_files[file_idx].current_cluster;
-            let (block_idx, block_offset, block_avail) = data.find_data_on_disk(
+            let (block_idx, block_offset, block_avail) = match data.find_data_on_disk(
                 volume_idx,
                 &mut current_cluster,
                 data.open_files[file_idx].entry.cluster,
                 data.open_files[file_idx].current_offset,
-            )?;
+            ) {
+                Ok(found) => found,
+                Err(e) => {
+                    data.open_files[file_idx].current_offset = start_offset;
+                    return Err(e);
+                }
+            };
             data.open_files[file_idx].current_cluster = current_cluster;
             trace!("Reading file ID {:?}", file);
-            let block = data
-                .block_cache
-                .read(block_idx)
-                .map_err(Error::DeviceError)?;
+            let block = match data.block_cache.read(block_idx) {
+                Ok(block) => block,
+                Err(e) => {
+                    data.open_files[file_idx].current_offset = start_offset;
+                    return Err(Error::DeviceError(e));
+                }
+            };
             let to_copy = block_avail
                 .min(space)
                 .min(data.open_files[file_idx].left() as usize);
